@@ -52,4 +52,48 @@ theorem pairSumList_perm (f : ℕ → ℕ → K) (hf : ∀ a b, f a b = f b a) {
     rw [hf b a]; ring
   | trans _ _ ih₁ ih₂ => rw [ih₁, ih₂]
 
+theorem cosPair_symm (sqrt : K → K) (R : ℕ → ℕ → K) (a b : ℕ) :
+    cosPair sqrt R a b = cosPair sqrt R b a := by
+  unfold cosPair; rw [dot_comm, mul_comm]
+
+/-- `np.delete(·, i)` re-indexing: summing over the deleted array = summing over all `j ≠ i` -/
+theorem sum_skip {M : Type} [AddCommMonoid M] (N i : ℕ) (hi : i < N) (f : ℕ → M) :
+    ∑ j ∈ range (N - 1), f (skip i j) = ∑ j ∈ range N, if j ≠ i then f j else 0 := by
+  rw [← Finset.sum_filter]
+  symm
+  refine Finset.sum_nbij' (fun j => if j < i then j else j - 1) (skip i) ?_ ?_ ?_ ?_ ?_
+  · intro a ha
+    simp only [Finset.mem_filter, Finset.mem_range] at ha
+    simp only [Finset.mem_range]
+    split <;> omega
+  · intro a ha
+    simp only [Finset.mem_range] at ha
+    simp only [Finset.mem_filter, Finset.mem_range, skip]
+    split <;> omega
+  · intro a ha
+    simp only [Finset.mem_filter, Finset.mem_range] at ha
+    simp only [skip]
+    split_ifs <;> omega
+  · intro a ha
+    simp only [Finset.mem_range] at ha
+    simp only [skip]
+    split_ifs <;> omega
+  · intro a ha
+    simp only [Finset.mem_filter, Finset.mem_range] at ha
+    simp only [skip]
+    split_ifs <;> first | rfl | (congr 1; omega)
+
+/-- accumulating over the compacted (filtered) index list = masked sum -/
+theorem foldl_filter_range (n : ℕ) (keep : ℕ → Bool) (F : ℕ → K) :
+    ((List.range n).filter keep).foldl (fun acc j => acc + F j) 0
+      = ∑ j ∈ range n, if keep j then F j else 0 := by
+  rw [foldl_add_eq, zero_add]
+  induction n with
+  | zero => simp
+  | succ n ih =>
+    rw [List.range_succ, List.filter_append, List.map_append, List.sum_append, ih,
+      Finset.sum_range_succ]
+    congr 1
+    by_cases h : keep n <;> simp [h]
+
 end Pms.LocalOrder
